@@ -97,6 +97,26 @@ func checkC19(c *Ctx) {
 		c.Unk("C19.R1.yaml-from-json", "YAML marshalling sites", "", fmt.Sprintf("found %d sites, expected ≥ 3 (writeToFile, marshalToYAMLFormat, init spec)", nYAML))
 	}
 	checkFormatSwitches(c, pkgs)
+	// --keep-spec-order: the x-order pass is format-agnostic, it never hands its input back unchanged
+	if gen := c.Prog("./generator").ByPath[load.Mod+"/generator"]; gen == nil {
+		c.Anchor("C19.R3.formats", "generator package", "not loaded")
+	} else if fd := load.FuncDecl(gen, "WithAutoXOrder"); fd == nil {
+		c.Anchor("C19.R3.formats", "generator.WithAutoXOrder", "not found")
+	} else {
+		param := gen.TypesInfo.Defs[fd.Type.Params.List[0].Names[0]]
+		bad := ""
+		ast.Inspect(fd.Body, func(n ast.Node) bool {
+			if _, isLit := n.(*ast.FuncLit); isLit {
+				return false
+			}
+			if rs, ok := n.(*ast.ReturnStmt); ok && len(rs.Results) == 1 && identIs(gen.TypesInfo, rs.Results[0], param) {
+				bad = c.posOf(gen, rs.Pos())
+			}
+			return true
+		})
+		c.Check(bad == "", "C19.R3.formats", "generator.WithAutoXOrder › never returns its input path unchanged", c.posOf(gen, fd.Pos()), "every return is the rewritten document",
+			"WithAutoXOrder returns the input path untouched at "+bad+": with --keep-spec-order some inputs (by extension or format) do not get x-order while the other rendering of the same document does")
+	}
 }
 
 // rendersSpec: the function takes or builds a *spec.Swagger and returns/writes bytes.
@@ -155,6 +175,39 @@ func checkGenericSource(c *Ctx, pk *packages.Package, fd *ast.FuncDecl, e ast.Ex
 		return true
 	})
 	c.Check(okSrc, "C19.R1.yaml-from-json", key, c.posOf(pk, pos), why, why)
+	// what the decoder produced is what gets marshalled: no store through the variable between
+	// the decode and the YAML marshaller (a rewriting pass changes the YAML rendering only)
+	var stores []string
+	ast.Inspect(fd.Body, func(n ast.Node) bool {
+		as, ok := n.(*ast.AssignStmt)
+		if !ok || as.Pos() > pos {
+			return true
+		}
+		for _, l := range as.Lhs {
+			root := ast.Unparen(l)
+			depth := 0
+			for {
+				switch x := root.(type) {
+				case *ast.IndexExpr:
+					root, depth = x.X, depth+1
+					continue
+				case *ast.SelectorExpr:
+					root, depth = x.X, depth+1
+					continue
+				case *ast.StarExpr:
+					root, depth = x.X, depth+1
+					continue
+				}
+				break
+			}
+			if depth > 0 && identIs(info, root, obj) {
+				stores = append(stores, goan.ExprString(l))
+			}
+		}
+		return true
+	})
+	c.Check(len(stores) == 0, "C19.R1.yaml-from-json", key+" › marshalled as decoded", c.posOf(pk, pos), "no store through the decoded value before it is marshalled",
+		fmt.Sprintf("the decoded value is rewritten (%v) before it is marshalled to YAML: the YAML rendering is computed from something else than the JSON rendering", stores))
 }
 
 // checkVerbatim: for every local assigned from a marshaller call, all later uses are sinks.
